@@ -444,8 +444,9 @@ func backoff(baseDelay, maxDelay time.Duration, retries int) time.Duration {
 		backoff = backoff * 1.5
 		retries--
 	}
-	if backoff > max {
-		backoff = max
+	if backoff >= max {
+		// Also keeps a float64 at or above 2^63 (maxDelay near the largest Duration) out of the conversion below.
+		return maxDelay
 	}
 	// float64 cannot represent every duration and a negative base shrinks when multiplied: clamp the result.
 	d := time.Duration(backoff)
